@@ -31,6 +31,7 @@ def GoodItem (h : Nat) (x : Item) : Prop :=
 /-- The operations of a constant-height session. -/
 def StableOp (h : Nat) : Op → Bool
   | .print _ => true
+  | .proxyPrint _ => true
   | .refresh => true
   | .update f _ => f.length == h
   | _ => false
@@ -89,6 +90,7 @@ theorem codeS_ok (cfg : Cfg) (hk : cfg.kind = .live) (h : Nat) (op : Op) (hop : 
   subst hk
   cases op with
   | print ls => simp [code, printBody, hookCode, frameCode, flushCode, ga, gh, SimS, stepS, onS, neutral]
+  | proxyPrint ls => simp [code, printBody, hookCode, frameCode, flushCode, ga, gh, SimS, stepS, onS, neutral]
   | refresh => simp [code, refreshCode, printBody, hookCode, frameCode, flushCode, ga, gh, SimS, stepS, onS, neutral]
   | update f r =>
     simp only [StableOp, beq_iff_eq] at hop
